@@ -194,6 +194,41 @@ def is_known(ctx, rec):
     return None
 
 
+def ladder_term_tie(ctx, py4hw):
+    """the hand-written netlist terms of Proofs/C08/Netlist.v (`and_ladder_design`, `or_ladder_design`: subjects of C08_*_ladder_netlist_refines)
+    against what And.__init__ / Or.__init__ REALLY build now: the live block is dumped (netlist.Dump) and the instantiated term must be
+    convertible to the dump (`reflexivity`).  Wires are created in the order the terms assume (inputs, r).  Returns the differing labels."""
+    import re, netlist
+    defs, goals, labels = [], [], []
+    for cls, term in (('And', 'and_ladder_design'), ('Or', 'or_ladder_design')):
+        for wis, w in (([3], 3), ([3, 3], 3), ([4, 4, 4], 4), ([1, 2, 3, 4, 5], 2), ([2] * 7, 2), ([8, 1, 8, 1], 9)):
+            with quiet():
+                hw = py4hw.HWSystem()
+                ins = [hw.wire('in%d' % i, wi) for i, wi in enumerate(wis)]
+                r = hw.wire('r', w)
+                getattr(py4hw, cls)(hw, 'g', ins, r)
+                try: dp = netlist.Dump(hw)
+                except Exception as ex:
+                    labels.append('%s%s' % (cls, wis)); goals.append('Goal True. idtac "@@DIFF %d". Abort.' % (len(labels) - 1)); continue
+            k = len(labels); labels.append('%s(widths=%s, r=%d)' % (cls, wis, w))
+            defs.append(dp.coq_design('dump_%d' % k))
+            goals.append('Goal True. tryif (assert ((%s %s %d : design AnySt) = dump_%d) by reflexivity) then idtac "@@SAME %d" else idtac "@@DIFF %d". Abort.' % (term, zlist(wis), w, k, k, k))
+            ctx.count(('ladder_term', cls, tuple(wis), w))
+    tag = 'C08_ladderterms'
+    os.makedirs(common.CASES, exist_ok=True)
+    pre = ('From V Require Import Base.PyInt Gen.WireOps Gen.Helpers Gen.Prims Gen.Seq Model.SimKernel Model.Trace.\nFrom V Require Import Proofs.C08.Netlist.\n'
+           'From Coq Require Import List ZArith. Import ListNotations. Open Scope Z_scope.\n')
+    open(os.path.join(common.CASES, tag + '.v'), 'w').write(pre + '\n'.join(defs) + '\n' + '\n'.join(goals) + '\n')
+    rc, out = common.sh('timeout 600 coqc -Q . V Cases/%s.v' % tag, timeout=630, cwd=common.COQ)
+    for ext in ('.vo', '.vok', '.vos', '.glob'):
+        try: os.remove(os.path.join(common.CASES, tag + ext))
+        except OSError: pass
+    if rc != 0: return ['Cases/%s.v does not compile against Proofs/C08/Netlist.v: %s' % (tag, out[-500:])]
+    same = set(int(x) for x in re.findall(r'@@SAME (\d+)', out))
+    ctx.notes['ladder_terms_convertible_to_live_dumps'] = '%d of %d' % (len(same), len(labels))
+    return [labels[k] for k in range(len(labels)) if k not in same]
+
+
 def run(ctx):
     ctx.cov['rule'] = ('obligations: theorems of Properties/C08.v over Model/StructLogic.v + the regenerated primitives; correspondence cases: '
                        '(block, configuration = widths/arity/constants, input vector); distinct = distinct (block, configuration, full-table|sampled); '
@@ -216,7 +251,12 @@ def run(ctx):
     spec_bad, model_bad = sweep(ctx, with_model, full_bits, n_random)
     known_checks(ctx)
     pol_ok = all(pol[k] == v for k, v in c08_blocks.HEADLINE_POLICIES.items())      # the theorems speak about these formulas only
-    tie_ok = (not missing) and r['ok'] and with_model and not model_bad and pol_ok and 'model_terms_failed' not in ctx.notes
+    ladder_bad = []
+    if r['ok'] and not missing:
+        try: ladder_bad = ladder_term_tie(ctx, py4hw)
+        except Exception as ex: ladder_bad = ['error: %s: %s' % (type(ex).__name__, str(ex)[-400:])]
+        if ladder_bad: ctx.notes['ladder_terms_not_convertible'] = ladder_bad
+    tie_ok = (not missing) and r['ok'] and with_model and not model_bad and pol_ok and 'model_terms_failed' not in ctx.notes and not ladder_bad
     reported = False
     for rec in spec_bad:
         if is_known(ctx, rec): continue
@@ -246,6 +286,7 @@ def run(ctx):
                     'translator rejected %s: %s' % (missing, {k: ctx.gen['errors'].get(k) for k in missing}) if missing else
                     'the generated primitives changed their parameter lists (models no longer apply): %s' % sig_changes if sig_changes else
                     'Model/StructLogic.v no longer builds over the regenerated primitives: %s' % mb.get('msg') if not with_model else
+                    'a hand-written ladder netlist term of Proofs/C08/Netlist.v is no longer convertible to the netlist And/Or really build: %s' % ladder_bad if ladder_bad else
                     'proof obligation no longer checks: %s in %s' % (r.get('lemma'), r.get('file')))
             ctx.violation({'what': what, 'theorem': r.get('lemma'), 'file': r.get('file'), 'coq_error': r.get('msg')}, found_input=False)
     ctx.assumptions += ['structural models (Model/StructLogic.v) mirror the constructors of bitwise.py / relational.py: checked on every run by running the '
